@@ -359,6 +359,22 @@ pub proof fn mn_split10(a: Seq<u64>) requires a.len() == 10
     assert(mn_p320() * x == 0x1_0000_0000_0000_0000int * (0x1_0000_0000_0000_0000int * (0x1_0000_0000_0000_0000int * (0x1_0000_0000_0000_0000int * (0x1_0000_0000_0000_0000int * x))))) by(nonlinear_arith);
 }
 // the borrow chain of mod_n_mul computes the low 5 limbs of z - s; they are the whole difference when it lies in [0, 2^320)
+// the conditional final subtraction of the Barrett reduction, as a lemma over plain integers (keeps the case split out of the
+// large context of mod_n_mul, where it was unstable)
+pub proof fn mn_final_sub(r0v: int, rv: int, s4: int, rr: int, n: int, took: bool)
+    requires r0v + r256() * s4 == rr, 0 <= s4, 0 <= rr < 2 * n, n < r256(), r256() < 2 * n, 0 <= r0v < r256(), 0 <= rv < r256(),
+        took == (s4 > 0 || r0v >= n),
+        took ==> (rv == r0v - n || rv == r0v - n + r256()),
+        !took ==> rv == r0v,
+    ensures rv == rr - (if took { 1int } else { 0int }) * n, 0 <= rv < n
+{
+    assert(s4 <= 1) by(nonlinear_arith) requires r0v + r256() * s4 == rr, r0v >= 0, rr < 2 * r256(), r256() > 0, s4 >= 0;
+    if s4 == 1 {
+        assert(r256() * s4 == r256()) by(nonlinear_arith) requires s4 == 1;
+    } else {
+        assert(r256() * s4 == 0) by(nonlinear_arith) requires s4 == 0;
+    }
+}
 pub proof fn mn_sub5(z: Seq<u64>, s: Seq<u64>, r: Seq<u64>, s4n: int, o0: int, o1: int, o2: int, o3: int, k: int, rr: int)
     requires z.len() == 8, s.len() == 8, r.len() == 4,
         0 <= o0 <= 1, 0 <= o1 <= 1, 0 <= o2 <= 1, 0 <= o3 <= 1,
@@ -729,9 +745,7 @@ fn mod_n_mul(a: &U256, b: &U256) -> (r: U256)
         let n = N9();
         let e: int = if s[4] > 0 || val4(r0) >= n { 1 } else { 0 };
         let s4 = s[4] as int;
-        assert(s4 <= 1) by(nonlinear_arith) requires r256() * s4 <= rr, rr < 2 * r256(), r256() > 0;
-        assert(s4 == 1 ==> r256() * s4 == r256()) by(nonlinear_arith);
-        assert(s4 == 0 ==> r256() * s4 == 0) by(nonlinear_arith);
+        mn_final_sub(val4(r0), val4(r@), s4, rr, n, s[4] > 0 || val4(r0) >= n);
         assert(val4(r@) == rr - e * n);
         assert(0 <= val4(r@) < n);
         assert(zz == val4(r@) + (qp + e) * n) by(nonlinear_arith) requires val4(r@) == zz - qp * n - e * n;
@@ -889,13 +903,16 @@ fn mod_n_from_hash(ha: &[u8]) -> (h: U256)
         assert(bi * r256() == bo) by(nonlinear_arith) requires (bi == 0 && bo == 0) || (bi == 1 && bo == r256());
         mn_sub4(zlo, x, rb, val4(h@), bi, rr);
     }
+    let ghost h0 = h@;
     
     if u256_cmp(&h, &SM9_N_MINUS_ONE) >= 0 {
         h = u256_sub(&h, &SM9_N_MINUS_ONE).0;
     }
     proof {
-        lemma_val4_bounds(h@);
+        lemma_val4_bounds(h@); lemma_val4_bounds(h0);
         let e: int = if rr >= d { 1 } else { 0 };
+        assert(d < r256() && r256() < 2 * d) by(compute);
+        mn_final_sub(val4(h0), val4(h@), 0, rr, d, val4(h0) >= d);
         assert(val4(h@) == rr - e * d);
         assert(0 <= val4(h@) < d);
         assert(zz == val4(h@) + (qp + e) * d) by(nonlinear_arith) requires val4(h@) == zz - qp * d - e * d;
